@@ -1,6 +1,7 @@
 #!/usr/bin/env python3
-"""Measures every loop-free container contract once (status, seconds) -> container_costs.json (committed; used to keep the
-quick tier within budget and to exclude contracts that exceed the per-harness time/memory budget). Not a check."""
+"""Measures every container contract once (status, seconds) in chunks -> container_costs.json (committed; used to keep the
+quick tier within budget and to leave out contracts that exceed the per-harness time/memory budget). Not a check.
+usage: measure_containers.py <out.json> <timeout_s> <jobs> [chunk]"""
 import json
 import os
 import sys
@@ -8,26 +9,29 @@ sys.path.insert(0, os.path.dirname(os.path.dirname(os.path.abspath(__file__))))
 from lib import vlib
 from props import containers_common as cc
 
-out = sys.argv[1] if len(sys.argv) > 1 else os.path.join(vlib.VERIF, "container_costs.json")
-timeout = int(sys.argv[2]) if len(sys.argv) > 2 else 600
-jobs = int(sys.argv[3]) if len(sys.argv) > 3 else 8
-os.environ["VERIF_IGNORE_COSTS"] = "1"
+out = sys.argv[1]
+timeout = int(sys.argv[2])
+jobs = int(sys.argv[3])
+chunk = int(sys.argv[4]) if len(sys.argv) > 4 else 120
 cc.load_costs = lambda: {}
 bs, meta = cc.build("thorough", 0, "C01")
 b = bs[0]
-b.jobs = jobs
-b.harness_timeout = timeout
+costs = json.load(open(out)) if os.path.exists(out) else {}
+names = [n for n in b.specs if not b.specs[n].get("canary") and "containers::" in n and n.split("::")[-1] not in costs]
+print("to measure:", len(names), flush=True)
 scratch = vlib.make_scratch()
 try:
     cc.pre_inject(scratch)
     vlib.inject(scratch, b.crate, b.modules)
-    names = [n for n in b.specs if not b.specs[n].get("canary")]
-    res, m = vlib.kani_run(scratch, b.crate, names, features=b.features, jobs=b.jobs, harness_timeout=b.harness_timeout,
-                           wall_timeout=12 * 3600, logname="measure-containers.log")
-    costs = {}
-    for n, r in res.items():
-        costs[n.split("::")[-1]] = dict(status=r.status, time_s=round(r.time_s, 1), failed=[d for d, _ in r.failed][:6])
-    json.dump(costs, open(out, "w"), indent=0, sort_keys=True)
-    print("measured", len(costs), "->", out)
+    for i in range(0, len(names), chunk):
+        part = names[i:i + chunk]
+        res, m = vlib.kani_run(scratch, b.crate, part, features=b.features, jobs=jobs, harness_timeout=timeout,
+                               wall_timeout=3 * 3600, logname="measure-containers-%d.log" % i)
+        for n, r in res.items():
+            if r.status == "missing":
+                continue
+            costs[n.split("::")[-1]] = dict(status=r.status, time_s=round(r.time_s, 1), failed=[d for d, _ in r.failed][:6])
+        json.dump(costs, open(out, "w"), indent=0, sort_keys=True)
+        print("measured", len(costs), flush=True)
 finally:
     vlib.drop_scratch(scratch)
